@@ -13,6 +13,11 @@ import re
 import sys
 
 ROOT_CAUSES = {
+    "generic-norm2-unscaled": {
+        "where": "mat/matrix.go Norm, generic path (operands that are not Normers after untransposeExtract), case 2",
+        "what": "The Frobenius norm of an operand without a Norm method (user Matrix/Vector/Symmetric/Triangular/Banded types, factorizations used as matrices, doubly wrapped transposes, lower-stored user symmetric types) is math.Sqrt of the plain sum of squares: it is +Inf when elements exceed about 1.3e154 and 0 when all are below about 1e-162, although the norm itself is representable. The same values in Dense, SymDense, TriDense, band types or VecDense go through lapack64.Lan*/blas64.Nrm2, which scale: mat.Norm(a, 2) depends on the representation.",
+        "fix": "candidate-fixes.diff: accumulate a scaled sum of squares (scale, ssq) in the generic path; gonum's mat tests pass unedited and the monitor is silent with it.",
+    },
     "raw-lower-symmetric": {
         "where": "mat/matrix.go Sum, Max, Min, Equal, EqualApprox; mat/inner.go Inner; mat/symmetric.go AddSym, CopySym (hence SymRankOne, RankTwo, SymRankK, PowPSD), ScaleSym, SubsetSym; mat/diagonal.go DiagFrom (RawSymBander)",
         "what": "Fast paths taken for any RawSymmetricer/RawSymBander read the upper triangle of the raw storage without looking at Uplo (silent garbage: Sum, Equal, EqualApprox, AddSym, ScaleSym, SubsetSym, DiagFrom) or panic 'mat: blas64.Symmetric not upper' (Max, Min, Inner, CopySym and its callers), although the same value behind a type without RawSymmetric is handled by the generic path and untransposeExtract deliberately declines to lift lower-stored types. The result depends on the representation of a symmetric operand.",
@@ -56,6 +61,7 @@ ROOT_CAUSES = {
 }
 
 RULES = [
+    (r"^Norm\|a=[^|,]*,values=(huge|tiny)\|wrong-value$", "generic-norm2-unscaled"),
     (r"^VecDense\.CloneFromVec\|recv=view\|outside-write$", "clonefromvec-view"),
     (r"^DiagDense\.DiagFrom\|recv=view,m=(T\(|TTri\()?UserUnitTri[UL]\)?\|", "diagfrom-unit-stride"),
     (r"^SymDense\.RankTwo\|recv=(zero|reset-big|reset-small)\|panic$", "ranktwo-empty-receiver"),
